@@ -120,7 +120,9 @@ pub fn is_vint(val: u64) -> bool {
         return false;
     }
 
-    (val.ilog2() % 7) == 0
+    // the length announced by the marker bit must equal the number of bytes the value occupies
+    let top_bit = val.ilog2();
+    top_bit / 8 + top_bit % 8 == 7
 }
 
 ///
